@@ -1,0 +1,18 @@
+// SPDX-License-Identifier: Apache-2.0
+// Copyright Authors of Cilium
+
+//go:build !verif
+
+// Package simhook provides scheduling hook points for deterministic
+// simulation. Without the "verif" build tag every hook is an empty
+// function that the compiler inlines away.
+package simhook
+
+// Yield marks a point at which a simulator may switch to another task.
+func Yield(point string) {}
+
+// Acquire is called right before a lock is taken.
+func Acquire(lock any, point string) {}
+
+// Release is called right after a lock has been released.
+func Release(lock any, point string) {}
